@@ -258,7 +258,8 @@ Qed.
 Lemma fold_matches_spec : forall op args r, forallb wf_num args = true ->
   spec_fold op args = Some r -> numeric_fold op args = r.
 Proof.
-  intros op args r W H.
+  intros op args r W H. unfold spec_fold in H.
+  destruct (is_ptr_form op args); [discriminate|].
   assert (Hop : op <> OpDiv) by (intro E; subst op; discriminate).
   assert (G : match all_ints args with
               | Some (a :: l) => Some (Ok (NInt (signed64 (pattern64 (fold_left (exact_op op) l a)))))
@@ -278,3 +279,11 @@ Proof.
     cbn [map forallb] in W. apply andb_true_iff in W. destruct W as [Wa _].
     apply uint_fold_wraps; assumption.
 Qed.
+
+(* the builtin behind + - * / is the fold, except for the one-argument form of "*" *)
+Lemma numeric_builtin_fold : forall op args, is_ptr_form op args = false ->
+  numeric_builtin op args = numeric_fold op args.
+Proof. intros op args H. unfold numeric_builtin. rewrite H. reflexivity. Qed.
+Lemma numeric_builtin_two_or_more : forall op a b l,
+  numeric_builtin op (a :: b :: l) = numeric_fold op (a :: b :: l).
+Proof. intros op a b l. destruct op; reflexivity. Qed.
